@@ -167,7 +167,7 @@ def run(ck):
     # its panic sites (index < 256, shift amounts)
     ca = ck.analyse('crc::crc32::{closure#0}', {'kslots': 2})
     nn = ck.count_obligations(ca.obligations(), 'C12.R2')
-    ck.rule('C12.R2 panic obligations of the step (index < 256, shifts < 32)', nn, 3)
+    ck.rule('C12.R2 panic obligations of the step (index < 256, shifts < 32)', nn, 3 if ck.profile == 'dev' else 1)   # release MIR carries no shift-overflow asserts
     # ---- R3: crc32 = data.iter().fold(crc, step)
     b = f.body('crc::crc32')
     calls = [(blk, blk['term']) for blk in b.blocks if blk['term']['t'] == 'call']
